@@ -862,6 +862,41 @@ def _place(shp, region, rng, to_src):
     return sops.transform(lambda x, y: to_src.transform(x, y), ll)
 
 
+def cache_history(R: Run, a, b, ra, rb, label: str):
+    """Process-global cache state that user code may create BEFORE the call under test: transformers for the pair in
+    both axis orders and both directions, in random order.  Each of them is itself compared with a fresh pyproj
+    Transformer of the same axis order on a probe point (the transformer cache must keep them apart)."""
+    import pyproj
+
+    rng = R.rng
+    steps = [(xy, rev) for xy in (False, True) for rev in (False, True)]
+    rng.shuffle(steps)
+    steps = steps[: rng.randint(0, 4)]
+    if steps and rng.random() < 0.6:
+        steps.sort(key=lambda t: t[0])  # the unusual axis order first, before anything else populates the cache
+    for xy, rev in steps:
+        s, d, rs, rd = (b, a, rb, ra) if rev else (a, b, ra, rb)
+        try:
+            tr = s.transformer_to_crs(d, always_xy=xy)
+            fresh = pyproj.Transformer.from_crs(rs, rd, always_xy=xy)
+            # a probe point that is valid in either axis order for geographic CRSs
+            p0 = (14.25, 47.5) if rs.is_geographic else None
+            if p0 is None:
+                to_s = pyproj.Transformer.from_crs("EPSG:4326", rs, always_xy=xy)
+                p0 = to_s.transform(14.25, 47.5) if xy else to_s.transform(47.5, 14.25)
+            elif not xy:
+                p0 = (47.5, 14.25)
+            got, want = tr(p0[0], p0[1]), fresh.transform(p0[0], p0[1])
+            ok = _eq_nan(got[0], want[0]) and _eq_nan(got[1], want[1])
+            R.oracle(ok, "transformer-axis-order", {"fn": "transformer_to_crs", "pair": label, "reverse": rev,
+                                                    "always_xy": xy, "point": list(p0)},
+                     f"transformer_to_crs({label}{' reversed' if rev else ''}, always_xy={xy}) maps {p0} to {got}, "
+                     f"a fresh pyproj Transformer with always_xy={xy} to {want}", sig=f"history|xy={xy}")
+        except Exception as e:  # pylint: disable=broad-except
+            R.oracle(False, "transformer-raises", {"pair": label, "always_xy": xy}, repr(e))
+    return [(xy, rev) for xy, rev in steps]
+
+
 def churn_defs(i: int) -> str:
     """per-tile ad-hoc projection: several hundred distinct CRS definitions that nobody keeps"""
     lat0 = -60 + (i % 50) * 2.0 + (i // 50) * 0.01
@@ -931,6 +966,7 @@ def run_to_crs_pyproj(R: Run):
         ra, rb = pyproj.CRS.from_epsg(int(a)), pyproj.CRS.from_epsg(int(b))
         to_src = pyproj.Transformer.from_crs("EPSG:4326", ra, always_xy=True)
         fresh = pyproj.Transformer.from_crs(ra, rb, always_xy=True)
+        hist = cache_history(R, src, dst, ra, rb, f"EPSG:{a}->EPSG:{b}")
         for _ in range(R.pick(1, 6)):
             kinds, _r = shapes_for(rng, rng.choice(["axis", "pyth"]))
             for kind, shp in kinds.items():
@@ -951,7 +987,7 @@ def run_to_crs_pyproj(R: Run):
                             except Exception:  # pylint: disable=broad-except
                                 continue
                         case = {"fn": "to_crs", "kind": kind, "wkt": insrc.wkt, "src": a, "dst": b, "resolution": res,
-                                "opts": {k: v for k, v in o.items()}}
+                                "opts": {k: v for k, v in o.items()}, "history": hist}
                         judge_to_crs(R, gm, g, dst, rb, fresh, False, opts, case,
                                      f"pyproj|{a}->{b}|" + ("plain" if res is None else "densified") +
                                      ("|wrapdateline" if o["wrapdateline"] else "") + ("|fix" if o["check_and_fix"] else "") +
@@ -991,6 +1027,8 @@ def run_to_crs_pyproj(R: Run):
         ea, eb = ca._epsg or 0, cb._epsg or 0  # pylint: disable=protected-access
         lazy_code = (lza and not ca._str.startswith("EPSG:")) or (lzb and not cb._str.startswith("EPSG:"))  # pylint: disable=protected-access
         known = "crs-eq-fuzzy-epsg-code-match" if (not truth_same and lazy_code and ea != 0 and ea == eb) else None
+        if not truth_same:
+            cache_history(R, ca, cb, refs[da], refs[db], f"{la}->{lb}")
         for kind in ("polygon+holes", "line") if R.quick else ("polygon+holes", "line", "collection"):
             insrc = _place(kinds[kind], REGIONS["utm33"], rng, to_srcs[da])
             g = gm.Geometry(insrc, ca)
@@ -1029,11 +1067,128 @@ def run_to_crs_pyproj(R: Run):
             R.oracle(False, "to-crs-raises", case, repr(e))
 
 
+def run_extreme_ratio(R: Run):
+    """1e5 ... pieces on ONE edge: closed-form count, first/last vertex, max/min gap via numpy (no per-vertex Fractions)"""
+    import numpy as np
+
+    gm, _ = _mods()
+    rng = R.rng
+    todo = [(140_000 + rng.randint(0, 999), "axis")] if R.quick else [
+        (150_000 + rng.randint(0, 999), "axis"), (300_000 + rng.randint(0, 999), "diag"), (1_000_000 + rng.randint(0, 999), "axis"),
+        (2_500_000 + rng.randint(0, 999), "diag")]
+    for n, how in todo:
+        r = rng.choice([1.0, 0.5, 0.25])
+        L = n * r + r * rng.choice([0.25, 0.5, 0.75])          # n pieces of r and a rest: n added vertices
+        if how == "axis":
+            p, q = (1000.0, -500.0), (1000.0, -500.0 + L) if rng.random() < 0.5 else (1000.0 + L, -500.0)
+        else:
+            p, q = (0.0, 0.0), (0.6 * L, 0.8 * L)
+        case = {"fn": "densify", "coords": [list(p), list(q)], "resolution": r, "pieces": n}
+        try:
+            with warnings.catch_warnings():
+                warnings.simplefilter("ignore")
+                with time_limit(120):
+                    out = gm.densify([p, q], r)
+        except BaseException as e:  # pylint: disable=broad-except
+            R.oracle(False, "densify-raises", case, repr(e))
+            continue
+        a = np.asarray(out, dtype="float64")
+        gaps = np.hypot(np.diff(a[:, 0]), np.diff(a[:, 1]))
+        Lf = math.hypot(q[0] - p[0], q[1] - p[1])
+        want = int(math.floor(Lf / r))
+        if want * r >= Lf:
+            want -= 1
+        slack = 8 * float(np.abs(a).max()) * 2.0 ** -52
+        R.oracle(len(out) == want + 2, "densify-wrong-vertex-count", case,
+                 f"densify: one edge of length {Lf!r} at resolution {r} got {len(out) - 2} added vertices, {want} are needed",
+                 sig=f"extreme|count|{how}")
+        R.oracle(tuple(out[0]) == p and tuple(out[-1]) == q, "densify-drops-or-reorders-vertices", case,
+                 "first / last vertex changed", sig="extreme|ends", trivial=True)
+        R.oracle(float(gaps.max()) <= r * (1 + 1e-12) + slack, "densify-edge-longer-than-resolution", case,
+                 f"densify: longest of {len(gaps)} output edges is {float(gaps.max())!r} > resolution {r}", sig=f"extreme|gap|{how}")
+        # every added vertex k at arc length k*r along the edge
+        k = np.arange(1, len(out) - 1, dtype="float64")
+        ex = p[0] + (k * r / Lf) * (q[0] - p[0])
+        ey = p[1] + (k * r / Lf) * (q[1] - p[1])
+        if len(out) == want + 2:
+            dev = float(max(np.abs(a[1:-1, 0] - ex).max(), np.abs(a[1:-1, 1] - ey).max()))
+            R.oracle(dev <= 1e-9 * max(1.0, Lf), "densify-vertex-not-at-multiple-of-resolution", case,
+                     f"added vertices are up to {dev:g} away from p + (k r / len)(q - p)", sig="extreme|position", trivial=True)
+
+
+def run_numeric_spellings(R: Run):
+    """every numeric SPELLING of the resolution must behave like the equal python float, through densify, segmented,
+    to_crs and lonlat_bounds, and must not be modified by the call"""
+    from decimal import Decimal
+
+    import numpy as np
+
+    gm, crsmod = _mods()
+    CRS = crsmod.CRS
+    coords = [(0.0, 0.0), (0.0, 7.0), (3.0, 11.0), (3.0, 11.5)]
+    from shapely import geometry as sg
+
+    shapes = {"line": sg.LineString(coords), "polygon": sg.Polygon([(0, 0), (0, 8), (8, 8), (8, 0)], [[(2, 2), (5, 2), (5, 5), (2, 5)]])}
+    c3857, c4326 = CRS("EPSG:3857"), CRS("EPSG:4326")
+
+    def spellings(v: float):
+        sp = {"float": float(v), "np.float64": np.float64(v), "np.float32": np.float32(v), "np.float16": np.float16(v),
+              "0-d float64 array": np.array(v, dtype="float64"), "0-d float32 array": np.array(v, dtype="float32"),
+              "Fraction": Fraction(v), "Decimal": Decimal(v)}
+        if float(v).is_integer():
+            sp.update({"int": int(v), "np.int32": np.int32(v), "np.int64": np.int64(v), "np.uint8": np.uint8(v) if v >= 0 else np.int8(v),
+                       "0-d int64 array": np.array(int(v), dtype="int64")})
+        return sp
+
+    def canon(x):
+        if isinstance(x, gm.Geometry):
+            return ("G", x.geom.wkb, str(x.crs))
+        if isinstance(x, gm.BoundingBox):
+            return ("B", tuple(x.bbox))
+        return ("L", [tuple(map(float, p)) for p in x])
+
+    calls = {
+        "densify": lambda r: gm.densify(list(coords), r),
+        "segmented[line]": lambda r: gm.Geometry(shapes["line"], c3857).segmented(r),
+        "segmented[polygon]": lambda r: gm.Geometry(shapes["polygon"], c3857).segmented(r),
+        "to_crs[line]": lambda r: gm.Geometry(shapes["line"], c3857).to_crs(c4326, resolution=r),
+        "to_crs[polygon]": lambda r: gm.Geometry(shapes["polygon"], c3857).to_crs(c4326, r),
+        "lonlat_bounds": lambda r: gm.lonlat_bounds(gm.Geometry(shapes["polygon"], c3857), resolution=r),
+    }
+    for v in (2.0, 0.5, 3.0, 1.0, 0.0, -1.0):
+        for cname, fn in calls.items():
+            def outcome(r):
+                try:
+                    with warnings.catch_warnings():
+                        warnings.simplefilter("ignore")
+                        with time_limit(risky=not v > 0):
+                            return canon(fn(r))
+                except BaseException as e:  # pylint: disable=broad-except
+                    return err_s(e)
+
+            want = outcome(float(v))
+            for sk, sv in spellings(v).items():
+                before = repr(sv)
+                got = outcome(sv)
+                exotic = sk in ("Fraction", "Decimal")
+                ok = got == want or (exotic and got == "ERR:TypeError")
+                nvert = (lambda o: len(o[1]) if isinstance(o, tuple) and o[0] == "L" else "-")
+                R.oracle(ok, f"numeric-spelling:{cname.split('[')[0]}",
+                         {"fn": "spelling", "call": cname, "resolution": repr(sv), "spelling": sk, "value": v},
+                         f"{cname} with resolution {sv!r} ({sk}) differs from the same call with the python float {float(v)!r}"
+                         + (f": {got}" if isinstance(got, str) else f" (vertices {nvert(got)} vs {nvert(want)})"),
+                         sig=f"spelling|{sk}")
+                R.oracle(repr(sv) == before, "resolution-argument-modified",
+                         {"fn": "spelling", "call": cname, "resolution": before, "spelling": sk, "value": v},
+                         f"{cname} changed its resolution argument from {before} to {sv!r}", sig="spelling|unmodified", trivial=True)
+
+
 def run(R: Run):
     import time
 
     timing = {}
-    for fn in (run_densify, run_segmented, run_to_crs_model, run_float_stream, run_to_crs_pyproj):
+    for fn in (run_densify, run_segmented, run_to_crs_model, run_float_stream, run_to_crs_pyproj, run_extreme_ratio,
+               run_numeric_spellings):
         t0 = time.time()
         fn(R)
         timing[fn.__name__] = round(time.time() - t0, 2)
